@@ -454,7 +454,21 @@ fn make_mmap(tmpfile: &mut NamedTempFile, size: Option<usize>) -> Result<Option<
                 tmpfile.path().display()
             )
         })?;
-        Ok(unsafe { MmapMut::map_mut(tmpfile.as_file()).ok() })
+        match unsafe { MmapMut::map_mut(tmpfile.as_file()) } {
+            Ok(map) => Ok(Some(map)),
+            Err(_) => {
+                // No mapping: the data goes through the file instead, which
+                // has to start out empty again, not at its preallocated
+                // length (fewer bytes than declared would leave padding).
+                tmpfile.as_file().set_len(0).with_context(|| {
+                    format!(
+                        "Failed to reset file length for temp file at {}",
+                        tmpfile.path().display()
+                    )
+                })?;
+                Ok(None)
+            }
+        }
     } else {
         Ok(None)
     }
